@@ -130,7 +130,38 @@ def run_check(copy, i, wt, tag):
     return {'exit': rc, 'violation': vl[0] if vl else None, 'kind': kind, 'what': what}
 
 
+def summary(out_dir):
+    """markdown summary of the worker logs of a finished sweep"""
+    recs = []
+    for f in sorted(os.listdir(out_dir)):
+        if f.endswith('.jsonl'):
+            recs += [json.loads(l) for l in open(os.path.join(out_dir, f)) if l.strip()]
+    by = {}
+    for r in recs:
+        by.setdefault(r['verdict'], []).append(r)
+    n = len(recs)
+    print('%d mechanical mutants sampled (of %d enumerated): %s.' % (n, len(enumerate_mutants()), ', '.join('%d %s' % (len(v), k) for k, v in sorted(by.items()))))
+    print()
+    first = {}
+    for r in by.get('caught', []):
+        first[r['caught_by']] = first.get(r['caught_by'], 0) + 1
+    print('Caught first by: ' + ', '.join('%s %d' % kv for kv in sorted(first.items())) + '.')
+    print()
+    print('| survivor | mutation | reading |')
+    print('|---|---|---|')
+    notes = {}
+    try:
+        notes = json.load(open(os.path.join(V, 'seeded', 'mechanical', 'survivor_notes.json')))
+    except Exception:
+        pass
+    for r in sorted(by.get('survived', []), key=lambda r: (r['file'], r['line'])):
+        print('| `%s:%d` | %s: `%s` | %s |' % (r['file'].split('/')[-1], r['line'], r['op'].replace('|', '/'), r['new'].strip().replace('|', '\\|')[:90], notes.get('%s:%d:%s' % (r['file'].split('/')[-1], r['line'], r['id']), notes.get('%s:%d' % (r['file'].split('/')[-1], r['line']), '?'))))
+
+
 def main():
+    if sys.argv[1] == 'summary':
+        summary(sys.argv[2])
+        return
     if sys.argv[1] == 'list':
         for m in enumerate_mutants():
             print(json.dumps(m))
